@@ -87,16 +87,22 @@ CLAIMED['C08'] = dict(
     design='3 C08')
 
 CLAIMED['C03'] = dict(
-    text='Proof of the line-set kernel of directors.py for all inputs and all histories of calls: _LineSet.__init__/set_line/start_range/'
-         '__contains__ against the view member(k) (per-line entries override the parity of transitions <= k): set_line changes exactly '
-         'one line, start_range changes exactly the lines >= its argument that have no per-line entry and raises iff out of order, '
-         '__contains__ reads the view without modifying it. Director._process_disable/filter_error and the parser are covered only by a '
-         'bounded sweep through the real VM (every reported error x trailing disable / type: ignore / stand-alone range).',
-    note='Trusted: engine/, z3, A-LIB (bisect.bisect contract on strictly increasing lists; uniqueness proved as a lemma). Known deviation F6 '
-         '(a trailing disable inside a multi-line statement is also recorded on the statement\'s first line, by design) is outside the sweep\'s '
-         'single-line programs and documented in DESIGN.md. Unverified surround: parser.py, Director methods, VM line attribution, eval_expr.',
-    technique='contract-based deductive verification: Python ast -> VC generator -> z3 (spec lemmas for bisect); bounded VM sweep for the surround',
-    design='3 C03')
+    text='Proof, for all inputs and all histories of calls, over the real source of directors.py: (1) the line-set kernel _LineSet.__init__/set_line/'
+         'start_range/__contains__ against the view member(k) (per-line entries override the parity of transitions <= k): set_line changes exactly '
+         'one line, start_range changes exactly the lines >= its argument that have no per-line entry and raises iff out of order; (2) '
+         'Director._process_disable: for every error class E and every line q the verdict member(disables[E], q) changes exactly when E is named, valid and '
+         'applicable to the line range -- on the directive line and the adjusted start line (closed directive) or from the line on (open-ended) -- and for '
+         'nothing else, and the type-ignore set is untouched; Director._adjust_line_number_for_pytype_directive; (3) Director.filter_error: an error of this '
+         'file is reported iff its final line is under no type-ignore, no disable=* and no disable of its own class; errors of other files / without a line '
+         'are always reported; the line is moved only for an implicit return. The parser (comment grouping, logical line ranges), the shrinking of function '
+         'ranges and the VM\'s line attribution are covered only by a bounded sweep through the real VM (every reported error x trailing disable / type: ignore / stand-alone range).',
+    note='Trusted: engine/, z3, A-LIB (bisect.bisect contract on strictly increasing lists; uniqueness proved as a lemma), A-DEFAULTDICT (a missing key of the '
+         'defaultdict of line sets behaves as an empty _LineSet), distinct keys hold distinct _LineSet objects, errorlog.is_valid_error_name pure, '
+         'find_outermost uninterpreted. The Director theory uses the _LineSet methods through the clauses proved in the first theory. Known finding F6 '
+         '(a directive inside a multi-line statement acts on the whole statement, by design) is matched by input class. Unverified surround: parser.py, '
+         '_parse_src_tree, VM line attribution, eval_expr.',
+    technique='contract-based deductive verification: Python ast -> VC generator (two theories, modular calls to mutating methods, loop invariant over the set of names) -> z3; bounded VM sweep for the surround',
+    design='8.3, 3 C03')
 
 CLAIMED['C16'] = dict(
     text='Unbounded proof over the real source of blocks._split_bytecode (partition: the concatenation of the blocks is the instruction '
@@ -146,18 +152,20 @@ CLAIMED['C19'] = dict(
     design='3 C19')
 
 CLAIMED['C04'] = dict(
-    text='Last sentence of C04 only (reported errors are sorted by position and nothing foreign is reported): unbounded proof over the '
-         'real source of ErrorLog.unique_sorted_errors (nested loops, in-place removal through a dict-value alias, for/else) that the result is '
-         'sorted by (filename or "", line) and consists of logged errors, each filed under its own unique representation, for every log. '
-         'The body of C04 -- byte-identical stub text, error report and pickle under any hash seed, in-process history and loader reuse -- is a '
-         'whole-pipeline non-interference property that no function-level contract here decides; it, and the uniqueness half of the last '
-         'sentence, are covered only by a bounded sweep: the snippets of pytype\'s own functional tests analysed in processes that differ in '
-         'PYTHONHASHSEED, program order and loader reuse, all outputs compared.',
+    text='(1) Last sentence of C04: unbounded proof over the real source of ErrorLog.unique_sorted_errors (nested loops, in-place removal through a dict-value '
+         'alias, for/else) that the result is sorted by (filename or "", line) and consists of logged errors, each filed under its own unique representation. '
+         '(2) Two frame obligations over every function of the pytype package, checked syntactically on every run: no value is picked from / no sequence is '
+         'built in the iteration order of an expression that is syntactically a set (order leak) unless the set is a guarded singleton or the site is in the '
+         'committed review list (13 stated assumptions); no function is memoised process-wide (functools.lru_cache/cache). A new leak or memo is a failed, named '
+         'obligation. (3) The body of C04 -- byte-identical stub text, error report and pickle under any hash seed, in-process history and loader reuse -- is '
+         'otherwise a whole-pipeline non-interference property that no function-level contract decides; it is covered by a bounded sweep only: 611 programs '
+         '(test snippets + hand-written name-collision/stress programs) analysed in processes that differ in PYTHONHASHSEED, program order and loader reuse.',
     note='Trusted: engine/, z3, A-POS (equal unique representations have equal sort keys), A-LIB (sorted(); dict insertion order; sum of lists), '
-         'textual contract of the one-line _sorted_errors. _compare_traceback_strings is uninterpreted (which duplicates are dropped is not under contract). '
-         'Unverified surround: everything else of the pipeline (vm, output, printer, optimizer, pickling, loader caches).',
-    technique='contract-based deductive verification: Python ast -> VC generator (loop invariants, ghost insertion order, alias write-through) -> z3; bounded native determinism sweep for the body of the property',
-    design='3 C04')
+         'textual contract of the one-line _sorted_errors; the frame scan sees syntactic sets only (a set reaching an order-sensitive consumer through a parameter, '
+         'an attribute of another object or a call is not seen) and recognises memoisation by decorator name only. _compare_traceback_strings is uninterpreted. '
+         'Two genuine hash-seed defects found by the scan were fixed in /repo (600720f, 23ccf1e). Unverified surround: everything else of the pipeline.',
+    technique='contract-based deductive verification: Python ast -> VC generator (loop invariants, ghost insertion order, alias write-through) -> z3; syntactic frame/effect obligations (order leaks, process-wide memos) over the package; bounded native determinism sweep for the body of the property',
+    design='8.3, 3 C04')
 
 NOT_APPLICABLE = {
     'C01': 'whole abstract interpreter vs CPython execution: no function-level contract expresses over-approximation of execution (DESIGN 4)',
